@@ -14,7 +14,8 @@ from . import boot
 
 
 def run(ctx):
-    if ctx.tier != "quick" and ctx.shard != 0:
+    from . import core
+    if (ctx.tier != "quick" and ctx.shard != 0) or core.BUDGET_SCALE != 1 or getattr(ctx, "variant", None):
         return
     test_dir = os.path.join(boot.REPO_DIR, "test")
     if not os.path.isdir(test_dir):
